@@ -101,7 +101,7 @@ def rule_R12_2(ctx):
                    "properties differently: only in index arm %s; only in "
                    "prop arm %s" % (f.path, sorted(a - b), sorted(b - a)),
                    where=mir.span_loc(f.span))
-    r.require_floor("functions with both an Index and a Prop arm over objects", found, 2)
+    r.require_floor("functions with both an Index and a Prop arm over objects", found, 1)
     return r
 
 
@@ -126,7 +126,14 @@ def run(ctx):
         v.rule = "R12.5"
         v.key = v.key.replace("R05.4", "R12.5", 1)
     r5.violations = [v for v in r5.violations if "Object" in v.key]
-    return [rule_R12_1(ctx), rule_R12_2(ctx), r3, r4, r5]
+    import c02
+    binders = {f.path for f in ctx.prog.hand_fns() if f.module.startswith("eval::bind")}
+    r6 = c02.rule_R02_1(ctx, restrict_fns=binders, rule_id="R12.6")
+    r6.title = ("property/index assignment never evaluates user code or locks "
+                "the object while holding the object's lock (R02.1 on the binder)")
+    r6.necessary_for = "`o[k] = v` with a key computed from `o` would abort instead of assigning"
+    r6.inst("binder functions analysed: %d" % len(binders))
+    return [rule_R12_1(ctx), rule_R12_2(ctx), r3, r4, r5, r6]
 
 
 META = {
